@@ -28,3 +28,10 @@ func Bad2(x uint64) uint64 {
 func Bad3(m map[[2]uint64]uint64) uint64 {
 	return uint64(len(m))
 }
+
+// a package-level variable (translated as a constant)
+var Levelc uint64 = 3
+
+func ReadLevelc() uint64 {
+	return Levelc + 1
+}
